@@ -302,3 +302,76 @@ func TypeSwitches(info *types.Info, n ast.Node) []*TypeSwitchInfo {
 	})
 	return out
 }
+
+// FuncOf returns the declaration of a function object of the module, or nil.
+func (p *Program) FuncOf(obj *types.Func) *Func {
+	if obj == nil {
+		return nil
+	}
+	rel := RelOf(obj.Pkg())
+	if rel == "" {
+		return nil
+	}
+	name := obj.Name()
+	if sig, ok := obj.Type().(*types.Signature); ok && sig.Recv() != nil {
+		t := sig.Recv().Type()
+		if pt, ok := t.(*types.Pointer); ok {
+			t = pt.Elem()
+		}
+		if n, ok := t.(*types.Named); ok {
+			name = n.Obj().Name() + "." + name
+		} else {
+			return nil
+		}
+	}
+	return p.Func(rel, name)
+}
+
+// StaticCallees returns the module functions that f calls statically
+// (function and concrete-method calls resolved through go/types), including
+// calls inside function literals, in source order without duplicates.
+func (p *Program) StaticCallees(f *Func) []*Func {
+	var out []*Func
+	seen := map[string]bool{}
+	ast.Inspect(f.Decl.Body, func(n ast.Node) bool {
+		call, ok := n.(*ast.CallExpr)
+		if !ok {
+			return true
+		}
+		fn, _ := Callee(f.Pkg.TypesInfo, call).(*types.Func)
+		if g := p.FuncOf(fn); g != nil && !seen[g.Name] {
+			seen[g.Name] = true
+			out = append(out, g)
+		}
+		return true
+	})
+	return out
+}
+
+// ReachableFuncs returns the functions reachable from the roots through
+// static calls, restricted to the packages in rels (nil: the whole module),
+// keyed by display name.
+func (p *Program) ReachableFuncs(roots []*Func, rels map[string]bool) map[string]*Func {
+	out := map[string]*Func{}
+	var work []*Func
+	for _, r := range roots {
+		if r != nil && out[r.Name] == nil {
+			out[r.Name] = r
+			work = append(work, r)
+		}
+	}
+	for len(work) > 0 {
+		f := work[len(work)-1]
+		work = work[:len(work)-1]
+		for _, g := range p.StaticCallees(f) {
+			if rels != nil && !rels[RelOf(g.Pkg.Types)] {
+				continue
+			}
+			if out[g.Name] == nil {
+				out[g.Name] = g
+				work = append(work, g)
+			}
+		}
+	}
+	return out
+}
